@@ -428,7 +428,7 @@ func main() {
 		},
 		Cases: func(tier string) int {
 			if tier == "thorough" {
-				return 40000
+				return 30000
 			}
 			return 3000
 		},
